@@ -540,6 +540,26 @@ fn dump_doc(idx: &str, flags: &str, input: &str, opt: ParsingOptions, doc: &Docu
                 }
             }
         }
+        // the same for nodes delivered by ONE iterator used from both ends (four step patterns, each over the whole document)
+        for pat in ["FB", "BF", "FBB", "BFF"] {
+            let mut it = d1.descendants();
+            let mut k = 0usize;
+            let pb = pat.as_bytes();
+            loop {
+                let x = if pb[k % pb.len()] == b'F' { it.next() } else { it.next_back() };
+                k += 1;
+                let x = match x {
+                    Some(x) => x,
+                    None => break,
+                };
+                let y = d1.get_node(x.id());
+                if y.map(|y| y == x && y.node_type() == x.node_type() && y.tag_name() == x.tag_name() && y.text() == x.text())
+                    .unwrap_or(false)
+                {
+                    ok_rt += 1;
+                }
+            }
+        }
         writeln!(o, "{} OI {}", idx, ok_rt).unwrap();
     }
     if flags.contains('g') {
